@@ -4,6 +4,9 @@ import (
 	"bufio"
 	"encoding/json"
 	"fmt"
+	"go/ast"
+	"go/parser"
+	"go/token"
 	"os"
 	"path/filepath"
 	"sort"
@@ -12,8 +15,26 @@ import (
 
 	"golang.org/x/tools/go/packages"
 	"golang.org/x/tools/go/ssa"
-	"golang.org/x/tools/go/ssa/ssautil"
 )
+
+var bodyPkgs = []string{"/io/", "/bytes/", "/bufio/", "/errors/", "/encoding/binary/", "/math/bits/", "/slices/", "/strings/", "/strconv/", "/sort/",
+	"/unicode/utf8/", "/hash/", "/cmp/", "/math/", "/internal/bytealg/", "/iter/", "/internal/byteorder/", "/internal/stringslite/"}
+
+// keepBodies: function bodies are kept for /repo, the harness overlays and the small part of the standard library that is interpreted.
+func keepBodies(filename string) bool {
+	if strings.HasPrefix(filename, "/repo/") {
+		return true
+	}
+	if i := strings.Index(filename, "/src/"); i >= 0 && !strings.Contains(filename, "/pkg/mod/") {
+		rel := filename[i+4:]
+		for _, p := range bodyPkgs {
+			if strings.HasPrefix(rel, p) && !strings.Contains(rel[len(p):], "/") {
+				return true
+			}
+		}
+	}
+	return false
+}
 
 // Job is one exploration: a harness entry point with concrete parameters.
 type Job struct {
@@ -125,7 +146,24 @@ func loadModule(module string) (*loaded, error) {
 		}
 		overlay[virt] = b
 	}
-	cfg := &packages.Config{Mode: packages.LoadAllSyntax, Dir: dir, Env: repoEnv(), Overlay: overlay, BuildFlags: []string{"-tags=verif"}}
+	fset := token.NewFileSet()
+	cfg := &packages.Config{Mode: packages.LoadAllSyntax, Dir: dir, Env: repoEnv(), Overlay: overlay, BuildFlags: []string{"-tags=verif"}, Fset: fset,
+		ParseFile: func(fset *token.FileSet, filename string, src []byte) (*ast.File, error) {
+			f, err := parser.ParseFile(fset, filename, src, parser.SkipObjectResolution)
+			if err != nil || f == nil {
+				return f, err
+			}
+			if !keepBodies(filename) {
+				// code the engine never interprets (third-party codecs, runtime, reflect, os, ...): keep the
+				// declarations, drop the bodies — type checking and SSA construction of them is most of the load time
+				for _, d := range f.Decls {
+					if fd, ok := d.(*ast.FuncDecl); ok && fd.Name.Name != "init" {
+						fd.Body = nil
+					}
+				}
+			}
+			return f, nil
+		}}
 	pkgs, err := packages.Load(cfg, ".")
 	if err != nil {
 		return nil, err
@@ -134,6 +172,9 @@ func loadModule(module string) (*loaded, error) {
 	var sb strings.Builder
 	packages.Visit(pkgs, nil, func(p *packages.Package) {
 		for _, e := range p.Errors {
+			if strings.Contains(e.Msg, "and not used") || strings.Contains(e.Msg, "missing function body") || strings.Contains(e.Msg, "missing return") {
+				continue // artefacts of dropped bodies in packages that are never interpreted
+			}
 			nerr++
 			fmt.Fprintln(&sb, e)
 		}
@@ -141,9 +182,32 @@ func loadModule(module string) (*loaded, error) {
 	if nerr > 0 {
 		return nil, fmt.Errorf("package load errors:\n%s", sb.String())
 	}
-	prog, spkgs := ssautil.AllPackages(pkgs, ssa.InstantiateGenerics)
+	// (ssautil.AllPackages would skip everything marked IllTyped by the benign errors above)
+	prog := ssa.NewProgram(fset, ssa.InstantiateGenerics)
+	var root *ssa.Package
+	seen := map[*packages.Package]bool{}
+	var visit func(p *packages.Package)
+	visit = func(p *packages.Package) {
+		if seen[p] {
+			return
+		}
+		seen[p] = true
+		for _, imp := range p.Imports {
+			visit(imp)
+		}
+		if p.Types != nil && p.TypesInfo != nil {
+			sp := prog.CreatePackage(p.Types, p.Syntax, p.TypesInfo, true)
+			if p == pkgs[0] {
+				root = sp
+			}
+		}
+	}
+	visit(pkgs[0])
+	if root == nil {
+		return nil, fmt.Errorf("no SSA package for %s", module)
+	}
 	prog.Build()
-	return &loaded{prog: prog, pkg: spkgs[0]}, nil
+	return &loaded{prog: prog, pkg: root}, nil
 }
 
 func resetTerms() {
